@@ -89,7 +89,7 @@ def r2_cycle(idx, r):
             conds = [(norm(t), pol) for t, pol in path_conditions(f.node, e.node)]
             res = [s for s in iter_stores(f.node) if s.value is not None and any(x is boc[0] for x in ast.walk(s.value))]
             nm = res[0].attr if res else None
-            r.require(conds == [(nm, True)] and e.state.get("_timeNodeLoop", (0, 0)) == (0, 0) and e.state.get("interactAllBOC", (0, 0)) == (1, 1), "halt-only-after-BOC", f, node=e.node,
+            r.require(conds in ([(nm, True)], [(norm(boc[0]), True)]) and e.state.get("_timeNodeLoop", (0, 0)) == (0, 0) and e.state.get("interactAllBOC", (0, 0)) == (1, 1), "halt-only-after-BOC", f, node=e.node,
                       msg=f"`return False` is allowed only directly on a truthy BOC result, before any node; conditions {conds}")
         elif v == "True":
             r.require(e.state.get("interactAllEOC", (0, 0)) == (1, 1) and e.state.get("interactAllBOC", (0, 0)) == (1, 1) and e.state.get("_timeNodeLoop", (0, 0))[0] >= 1, "complete-cycle", f, node=e.node,
